@@ -242,7 +242,7 @@ impl Prop for C15 {
         crate::fuzzdec::c15(bytes)
     }
     const RULE: &'static str = "words of 0-8 characters over a 4-letter alphabet (+ multi-byte letters; closed-pool clusters in grapheme mode, or - for `never panics` only - an alphabet of units that fuse with their neighbours) x non-empty subsets of {insert, delete, replace, swap} x the real context-table InsertEdits/ReplaceEdits providers with generated tables over the alphabet plus <bow>/<eow> (edit strings of 0-3 characters, weights 1-4) or always-matching mock providers x delete/swap predicates x exclusion sets x ChaCha8 seeds x chains of 1-6 edits feeding the exclusion set back in; optionally corrupt_spelling end to end on a sentence. Oracle: no panic (overflow checks on); for every step there must exist a single-edit explanation of an enabled kind reproducing both the new word and the new exclusion set; excluded characters keep their identity; exclusion set within the new word. Non-trivial: a step changed the word while the exclusion set was non-empty. Distinct = distinct serialised case.";
-    const ESSENTIAL: &'static [&'static str] = &["insert", "delete", "replace", "swap", "unchanged", "edit_at_0", "edit_at_last", "empty_word", "empty_replacement", "multi_char_insert", "chain>=3", "real_tables", "sentence", "unstable_totality"];
+    const ESSENTIAL: &'static [&'static str] = &["insert", "delete", "replace", "swap", "unchanged", "edit_at_0", "edit_at_last", "empty_word", "empty_replacement", "multi_char_insert", "chain>=3", "real_tables", "sentence", "unstable_totality", "word_of_250_or_more_characters"];
 
     fn budget(tier: Tier) -> Budget {
         match tier {
@@ -257,13 +257,15 @@ impl Prop for C15 {
                 let al = alpha(g, mb);
                 (
                     prop_oneof![16 => proptest::collection::vec(select(al), 0..=8).prop_map(|v| v.concat()), 1 => proptest::collection::vec(select(al), 9..=30).prop_map(|v| v.concat()),
-                        1 => gen::with_giant(proptest::collection::vec(select(al), 0..=6).prop_map(|v| v.concat()).boxed(), 2)],
+                        1 => gen::with_giant(proptest::collection::vec(select(al), 0..=6).prop_map(|v| v.concat()).boxed(), 2),
+                        // words of about 256 characters (index types, block sizes)
+                        1 => (250usize..=262).prop_flat_map(move |n| proptest::collection::vec(select(al), n)).prop_map(|v| v.concat())],
                     1u8..16,
                     tables(al),
                     any::<bool>(),
                     prop_oneof![2 => Just(vec![]), 1 => proptest::collection::vec(select(al).prop_map(str::to_string), 1..=3)],
                     prop_oneof![2 => Just(vec![]), 1 => proptest::collection::vec(select(al).prop_map(str::to_string), 1..=3)],
-                    proptest::collection::vec(prop_oneof![8 => 0usize..8, 1 => 8usize..30], 0..=4),
+                    proptest::collection::vec(prop_oneof![8 => 0usize..8, 1 => 8usize..30, 1 => 240usize..262], 0..=4),
                     any::<u64>(),
                     prop_oneof![16 => 1usize..=6, 1 => 7usize..=14],
                     prop_oneof![
@@ -323,6 +325,7 @@ impl Prop for C15 {
         out.label_if(!c.tables.mock, "real_tables");
         out.label_if(c.word.is_empty(), "empty_word");
         out.label_if(c.chain >= 3, "chain>=3");
+        out.label_if(gen::clusters(&c.word, g).len() >= 250, "word_of_250_or_more_characters");
         let mut rng = ChaCha8Rng::seed_from_u64(c.seed);
         let mut word = c.word.clone();
         let mut excl: BTreeSet<usize> = c.exclude.iter().copied().collect();
